@@ -95,7 +95,7 @@ def _generate(rng, index, tier, extra):  # pylint: disable=unused-argument
         raw = rng.choice(corpus.accepted_plus(path))
         faults = wirefault.gen_faults(rng, raw) if rng.random() < 0.85 else []
         if wirefault.is_text(raw) and rng.random() < 0.4:
-            faults = wirefault.token_faults(rng, raw)
+            faults = (wirefault.typed_faults(rng, raw) if rng.random() < 0.4 else wirefault.token_faults(rng, raw))
         return {'kind': 'wrapped', 'wrapper': wrapper, 'inner': path, 'hex': raw.hex(), 'faults': faults}
     if roll < 0.72:
         paths = corpus.class_paths()
@@ -113,7 +113,7 @@ def _generate(rng, index, tier, extra):  # pylint: disable=unused-argument
         if rng.random() < 0.25:
             faults += wirefault.text_faults(rng, raw)
         if wirefault.is_text(raw) and rng.random() < 0.35:
-            faults = wirefault.token_faults(rng, raw) + (faults if rng.random() < 0.3 else [])
+            faults = (wirefault.typed_faults(rng, raw) if rng.random() < 0.4 else wirefault.token_faults(rng, raw)) + (faults if rng.random() < 0.3 else [])
         if rng.random() < 0.1:
             other = rng.choice(corpus.accepted(rng.choice(paths)) or [b''])
             faults.append({'k': 'insert', 'at': rng.randrange(len(raw) + 1), 'hex': other[:64].hex()})
